@@ -16,18 +16,18 @@ CLAIMS = {
     'C02': ('5.C02 / 10.5', 'per packet kind and shape: builder -> size() / Remaining Length / contiguous / vectored serialisation -> parse, compared byte for byte and by equality for all field values of the shape (ids at full u16 and u32 width, every return/reason code, flags, symbolic string/payload bytes); variable byte integers for all u32, strings of 0-3 symbolic bytes. Decided for the v3.1.1 acknowledgements, CONNACK, PUBLISH (3 QoS shapes), PING/DISCONNECT and the v5.0 CONNACK/DISCONNECT/AUTH without properties; the other v5.0 round trips are written but outside the claim (not decidable within 28 GB here).'),
     'C03': ('5.C03 / 10.5', 'the C02 harnesses compare against an independently written reference encoding per shape (bytes spelled out from the OASIS tables); exhaustive u8 tables for property identifiers, every reason/return-code enum and QoS; every fixed-width property kind: identifier byte + big-endian value for all values'),
     'C04': ('5.C04 / 10.5', 'parsers on all byte strings up to N (v3.1.1 acknowledgements N=4, CONNACK 3, strings / binaries 6, variable byte integers 5) and on structured symbolic bodies (v3.1.1 PUBLISH with all 16 flag nibbles, every prefix of a CONNECT body, non-minimal Property Length); on acceptance: consumed <= given, size() == serialisation length, re-parse equal, non-zero identifier, QoS <= 2; Rust panics / out-of-bounds are failures by construction. v5.0 parsers beyond the listed shapes are outside the claim.'),
-    'C05': ('5.C05 / 10.5', 'receive steps with boundary values (CONNECT keep-alive at full width incl. 65535 on v3.1.1 and v5.0 servers, Topic Alias Maximum 0, QoS2 PUBLISH id 0 / duplicate), over-long Remaining Length at every cut position, recv() framing error, totality of the id calls for every value, every prefix of a CONNECT body; thorough: dispatch with a symbolic fixed-header byte (v3.1.1 client and server). Every panic / overflow / unwrap reachable inside the bounds is a failure. ' + STEP),
+    'C05': ('5.C05 / 10.5', 'receive steps with boundary values (CONNECT keep-alive at full width incl. 65535 on v3.1.1 and v5.0 servers, QoS2 PUBLISH id 0 / duplicate), over-long Remaining Length at every cut position, recv() framing error, totality of the id calls for every value, every prefix of a CONNECT body; thorough: dispatch with a symbolic fixed-header byte (v3.1.1 client and server), Topic Alias Maximum 0. Every panic / overflow / unwrap reachable inside the bounds is a failure. ' + STEP),
     'C06': ('5.C06 / 10.5', STEP + '. Quick: QoS1 PUBLISH sent on a persistent session (stored with DUP, id held, unregistered id refused), PUBACK match / wrong kind / wrong id / id 0 against a stored packet. Thorough: every status x persistence x offline flag for PUBLISH and PUBREL, v5.0 PUBACK / PUBREC (every reason code) / PUBCOMP, close.'),
     'C07': ('5.C07 / 10.5', STEP + '. Quick: inbound QoS2 PUBLISH new vs. duplicate (DUP symbolic), application PUBREC with every reason code (only errors forget the id), export/restore of the handled set. Thorough: auto response on/off incl. id 0, PUBREL (both versions, 34 min), close, clean-start CONNECT on a reused object.'),
     'C08': ('5.C08 / 10.5', 'PacketIdManager inductive step over an arbitrary valid allocator state at full u16 width (acquire / register / release, universal probe) + totality of release/register/acquire for every value incl. 0 and double release + close (pending subscribe id, in-flight publish id, persistent or not) + PUBACK match/mismatch release accounting; thorough: SUBACK/UNSUBACK with an id the application already released, PUBCOMP, v5.0 PUBACK'),
     'C09': ('5.C09 / 10.5', 'PacketBuilder::feed decided for all 1-4 byte Remaining Length encodings (header phase), over-long lengths at every cut position (3 concrete length patterns), every partition into <=3 chunks (+ byte-at-a-time) of concrete-shape streams with symbolic content against whole-frame feeding, and recv() handling exactly one packet per call'),
-    'C10': ('5.C10 / 10.5', STEP + '. Quick: notify_closed from any status with symbolic leftovers (limits, alias tables, pending ids, timers, half-received frame); server CONNECT after a connection with another keep-alive. Thorough: clean-start CONNECT on a reused client compared field by field with a fresh object (two objects), v5.0 server CONNECT.'),
-    'C11': ('5.C11 / 10.5', 'compile-time Sendable table for 29 types x 3 roles against the run-time role rule; public send() per (role, packet kind) with connection version (3), status (3), need_store and offline_publish symbolic = 36 cells per harness against the MQTT send rules, refused sends must leave the state (incl. inbound exchanges) unchanged. Quick = const table + 2 harnesses; thorough = the harnesses listed in DESIGN 10.5.'),
-    'C12': ('5.C12 / 10.5', 'vacancy arithmetic for all maxima and counters (saturating, never wraps) + ' + STEP + '. Quick: application PUBREC frees the inbound slot exactly for error codes. Thorough: PUBACK / PUBCOMP match and mismatch with Receive Maximum M at full width. Retransmission counting on resume and the inbound limit are written but outside the claim (did not fit).'),
+    'C10': ('5.C10 / 10.5', STEP + '. Quick: notify_closed from any status with symbolic leftovers (limits, alias tables, pending ids, timers, half-received frame); server CONNECT (v3.1.1 and v5.0) after a connection with another keep-alive. Thorough: clean-start CONNECT on a reused client compared field by field with a fresh object (two objects).'),
+    'C11': ('5.C11 / 10.5', 'compile-time Sendable table for 29 types x 3 roles against the run-time role rule; public send() per (role, packet kind) with connection version (3), status (3), need_store and offline_publish symbolic = 36 cells per harness against the MQTT send rules, refused sends must leave the state (incl. inbound exchanges) unchanged. Quick = const table + 2 harnesses; thorough = 20 of the 93 generated harnesses (those decided on the final tree, DESIGN 10.5); the other 73 (among them every PUBLISH cell) are outside the claim.'),
+    'C12': ('5.C12 / 10.5', 'vacancy arithmetic for all maxima and counters (saturating, never wraps) + ' + STEP + '. Quick: application PUBREC frees the inbound slot exactly for error codes. Thorough: PUBACK / PUBCOMP (and whichever of PUBREC / send-at-the-limit / erase_stored_publish were decided, see DESIGN 10.5) with Receive Maximum M at full width. Retransmission counting on resume and the inbound limit are written but outside the claim (did not fit).'),
     'C13': ('5.C13 / 10.5', 'receive-side alias table kernel (all maxima / aliases), sender table clear(), automatic mapping under a size limit (new mapping sends topic + alias), tables dropped on close, server-side table only for Topic Alias Maximum > 0 (thorough). The sender-side manual / replacement steps against a receiver model are written but did not fit (outside the claim). ' + STEP),
-    'C14': ('5.C14 / 10.5', 'size kernel for all Remaining Lengths + ' + STEP + '. PUBACK under every limit, automatically mapped PUBLISH under limits around its size (known finding KF1), inbound frame around the local limit (DISCONNECT 0x95, close, not delivered); thorough: QoS1 PUBLISH refusal releases its id, send_stored drops oversize PUBLISH and PUBREL.'),
+    'C14': ('5.C14 / 10.5', 'size kernel for all Remaining Lengths + ' + STEP + '. PUBACK under every limit, automatically mapped PUBLISH under limits around its size (known finding KF1), inbound frame around the local limit (DISCONNECT 0x95, close, not delivered). The send_stored() filter (oversize stored PUBLISH / PUBREL dropped and released) is written in three forms, none of which is decided here (50 min / 20 GB): outside the claim, and the seeded change C14_a in that function is not reported.'),
     'C15': ('5.C15 / 10.5', STEP + '. Timer monitor on every step (cancel only if armed, flags == fold of events, nothing armed when disconnected, exact intervals by priority) for all keep-alive / override / Server Keep Alive / timeout values: PINGREQ send (v5.0), DISCONNECT, server receive-timer expiry (both versions), PINGRESP, close, server CONNECT (after another keep-alive); thorough: the other expiries, v3.1.1 PINGREQ, PUBREL while not connected.'),
-    'C16': ('5.C16 / 10.5', 'handled-set export -> restore equality (quick); thorough: restore_packets of [PUBLISH QoS1|2, PUBREL] (v3.1.1 / v5.0): order, wait sets, in-use ids, re-registration refused. The crash-point quantifier is discharged by state equality (exportable state = store + handled set); resume behaviour from a restored store is decided under C06 only for v3.1.1 PUBACK.'),
+    'C16': ('5.C16 / 10.5', 'handled-set export -> restore equality; restore_packets of one packet (QoS1 / QoS2 PUBLISH, PUBREL; v3.1.1 and v5.0) into a fresh client for every identifier: store content, in-use id, exactly the right wait set, re-registration refused. Multi-packet restores (order) exceed 28 GB and are outside the claim. The crash-point quantifier is discharged by state equality (exportable state = store + handled set); resume behaviour from a restored store is decided under C06 only for v3.1.1 PUBACK.'),
     'C17': ('5.C17 / 10.5', 'can_receive for all u8 x version x role against the MQTT table; CONNACK on an established connection is a protocol error and leaves the session untouched; thorough: process_recv_packet with a symbolic fixed-header byte for a v3.1.1 client and server (rejected => only a protocol error, state untouched; accepted => the handler of that type ran). v5.0 / undetermined-version dispatch did not fit (outside the claim).'),
     'C18': ('5.C18', 'each private validate_*_properties function decided against the specification table for property kind symbolic over all identifiers x occurrence count 1-2 x symbolic values, and every fixed-width / variable-byte property constructor and parser for all values; finite table fully covered except count>2'),
     'C19': ('5.C19 / 10.5', 'close-ordering monitor (no send after a close request in one list) on every step harness; own steps: DISCONNECT v3.1.1 and v5.0 (every reason code), keep-alive expiries, recv() framing error, oversize inbound frame (DISCONNECT, close, error in that order). ' + STEP),
